@@ -108,9 +108,16 @@ class SimSocket(object):
         if self.err:
             e, self.err = self.err, 0
             raise SockError(e, 'recv error')
-        if self.eof:
+        if self.eof_ready():
             return b''
         raise SockError(_errno.EAGAIN, 'Resource temporarily unavailable')
+
+    def eof_ready(self):
+        """The end of the stream is seen only after every byte the peer wrote before it closed has arrived."""
+        if not self.eof:
+            return False
+        p = self.net.sockets.get(self.peer) if self.peer is not None else None
+        return not (p is not None and p.out and not p.blackhole)
 
     def close(self):
         if self.state == 'closed':
